@@ -16,7 +16,7 @@ import vlib
 
 LEVEL = "model_checking"
 
-ALPHA = ["a", "a$b", "break", "x=1", "!", "{", "}", "for", "case", "esac", "in", "if", "elif", "then", "else", "fi", "while", "until",
+ALPHA = ["a", "a$b", "fi''", "break", "x=1", "!", "{", "}", "for", "case", "esac", "in", "if", "elif", "then", "else", "fi", "while", "until",
          "do", "done", ";", "&", "&&", "||", "|", ";;", "(", ")", "\n", ">", "2>", "((1))"]
 BROKEN = ["'u", "\"u", "${u", "$(u", "$((u", "`u", "((1) ))", "((1)", "$((1) ))", "${u:", "${u:-'}", "\"$(u\"", "\"${u\"", "${", "${}"]
 
